@@ -82,6 +82,7 @@ class Generator:
         self._force = None       # (n, conn) forced for the next recipe (fault aiming)
         self._force_sticky = False
         self.script_note = None
+        self._job = job
         self.cfg = self._draw_config()
         if batch == "K5":
             self._script_k5(job["op"])
@@ -110,7 +111,10 @@ class Generator:
         m, d, inv, rd, it = BATCH_RATES[self.batch]
         jitter = lambda x: x * r.choice([0.5, 1.0, 1.0, 1.5])  # noqa: E731
         groups = {n: [Lt.random_group(r, n) for _ in range(r.choice([1, 2, 2, 3]))] for n in ns}
-        return {"ns": ns, "conns": conns, "families": sorted(fams), "length": length, "wide": wide,
+        # simulated time between the caller's actions: none / milliseconds / minutes / days (TTL-style logic, if a
+        # change ever introduces one, sees both "just now" and "long ago")
+        dt = r.choice([None, None, "ms", "minutes", "days", "mixed"])
+        return {"ns": ns, "conns": conns, "families": sorted(fams), "length": length, "wide": wide, "dt": dt,
                 "p_mutate": jitter(m), "p_drop": jitter(d), "p_invalid": jitter(inv),
                 "p_read": jitter(rd), "p_intr": jitter(it),
                 "p_dependent": r.choice([0.5, 0.7, 0.7, 0.9]),
@@ -118,6 +122,19 @@ class Generator:
                 "alias_bias": r.choice([0.5, 0.8, 0.95]),
                 "big_fitter": r.random() < (0.05 if self.tier == "quick" else 0.25),
                 "groups": groups}
+
+    def draw_dt(self):
+        r = self.rng
+        mode = self.cfg.get("dt")
+        if mode == "mixed":
+            mode = r.choice(["ms", "minutes", "days"])
+        if mode == "ms":
+            return round(r.uniform(0.0001, 0.05), 6)
+        if mode == "minutes":
+            return round(r.uniform(1, 3600), 3)
+        if mode == "days":
+            return round(r.uniform(3600, 30 * 86400), 1)
+        return 0.0
 
     def describe_config(self):
         c = dict(self.cfg)
@@ -917,6 +934,15 @@ class Generator:
         self.cfg["length"] = 0
         if fam in ("graph", "stab", "lc", "lin", "rot"):
             self.cfg["p_reuse"] = 0.9      # work on few objects: memo-invalidation needs query / change / query on ONE object
+        n = (self._job or {}).get("n")
+        if n:
+            if fam == "tomo" and not self.cfg["big_fitter"]:
+                n = min(n, 3)
+            if fam == "layer":
+                n = min(n, 5)
+            self.cfg["ns"] = [n]
+            self.cfg["conns"] = {n: self.rng.sample(VALID[n], min(len(VALID[n]), self.rng.choice([1, 2])))}
+            self.cfg["groups"] = {n: [Lt.random_group(self.rng, n) for _ in range(self.rng.choice([1, 2, 3]))]}
         if fam == "tomo" and not self.cfg["big_fitter"]:
             ns = [n for n in self.cfg["ns"] if n <= 3] or [self.rng.choice([2, 3])]
             self.cfg["ns"] = ns
